@@ -774,3 +774,20 @@ def _split_wrappers():
         key = "band" if n.startswith("band_") else "newton" if n.startswith("newton_") else "m" if n.startswith("m") else n[0]
         MODULES.setdefault(fam[key], dict(imports=ent["imports"], funcs=[]))["funcs"].append(f)
 _split_wrappers()
+
+# ---------------------------------------------------------------------------------------------------- VecCmplx (Model/Vector.v, Model/Newton.v): round two
+# src/vector/vec_cmplx.rs: conj, real, norm_inf of Vector<Complex<T>> over CArith F
+V_CPX = "src/vector/vec_cmplx.rs"
+RUST_TYPES.append((r"^Vector<Complex<(T|f64)>>$", "cvec"))
+MODULES["VecCmplx"] = dict(
+    imports="From OV Require Import Base.Panic Base.Arith Model.Complex Model.Vector Model.Newton gen.SrcPrelude.",
+    context=["Context {F : SArith}.", "Local Notation A := (SA F).", "Local Notation CA := (CArith F)."],
+    spec=dict(methods={("celem", "conj", 0): dict(g="(conj {0} : T CA)", ret="celem", atom=True),
+                       ("celem", "abs", 0): dict(g="sqrt (abs_sqr {0})", ret="elem")},
+              paths={("Complex::zero", 0): dict(g="(@zero CA)", ret="celem", atom=True)},
+              fields={("cvec", "vec"): ("{0}", "cvec"), ("celem", "real"): ("(re {0})", "elem")}),
+    funcs=[
+        dict(name="vconj", file=V_CPX, impl=r"^<T:Clone\+Signed>Vector<Complex::<T>>$", fn="conj"),
+        dict(name="vreal", file=V_CPX, impl=r"^<T:Clone\+Number>Vector<Complex::<T>>$", fn="real"),
+        dict(name="cnorm_inf", file=V_CPX, impl=r"^Vector<Complex::<f64>>$", fn="norm_inf"),
+    ])
